@@ -460,7 +460,7 @@ Lemma epack_range row : rgb_ok row -> 0 <= epack row < 2 ^ 24.
 Proof. unfold rgb_ok, epack. lia. Qed.
 
 Lemma pack_rgb_None row : pack_rgb None row = epack row.
-Proof. unfold pack_rgb, epack, wrap. lia. Qed.
+Proof. unfold pack_rgb, pack_rgb_raw, promote, epack, wrap. lia. Qed.
 
 Lemma wrap_I32_small z : 0 <= z < 2 ^ 31 -> wrap I32 z = z.
 Proof.
@@ -470,13 +470,13 @@ Qed.
 
 Lemma pack_rgb_I32 row : rgb_ok row -> pack_rgb I32 row = epack row.
 Proof.
-  intros H. pose proof (epack_range row H) as Hr. unfold pack_rgb.
+  intros H. pose proof (epack_range row H) as Hr. unfold pack_rgb. change (promote I32) with I32. unfold pack_rgb_raw.
   rewrite (wrap_I32_small 1), (wrap_I32_small 256), (wrap_I32_small 65536) by lia.
   unfold epack in *. rewrite wrap_I32_small; lia.
 Qed.
 
-(* any colour-table dtype wide enough for 24 bits packs exactly *)
-Lemma pack_rgb_wide bits sg row : 25 <= bits -> rgb_ok row -> pack_rgb (Some (bits, sg)) row = epack row.
+(* any arithmetic wide enough for 24 bits packs exactly *)
+Lemma pack_rgb_wide bits sg row : 25 <= bits -> rgb_ok row -> pack_rgb_raw (Some (bits, sg)) row = epack row.
 Proof.
   intros Hb H. pose proof (epack_range row H) as Hr.
   assert (Hp : 2 ^ 24 <= 2 ^ (bits - 1)) by (apply Z.pow_le_mono_r; lia).
@@ -484,7 +484,16 @@ Proof.
   assert (Hw : forall z, 0 <= z < 2 ^ 24 -> wrap (Some (bits, sg)) z = z).
   { intros z Hz. unfold wrap. rewrite Z.mod_small by lia.
     destruct sg; cbn [andb]; [|reflexivity]. destruct (Z.leb_spec (2 ^ (bits - 1)) z); [lia|reflexivity]. }
-  unfold pack_rgb. rewrite (Hw 1), (Hw 256), (Hw 65536) by lia. unfold epack in *. rewrite Hw; lia.
+  unfold pack_rgb_raw. rewrite (Hw 1), (Hw 256), (Hw 65536) by lia. unfold epack in *. rewrite Hw; lia.
+Qed.
+
+(* whatever the integer dtype of the colour table, the promoted arithmetic is exact *)
+Lemma pack_rgb_exact dt row : rgb_ok row -> pack_rgb dt row = epack row.
+Proof.
+  intros H. unfold pack_rgb. destruct dt as [[bits sg]|]; [|apply pack_rgb_None].
+  unfold promote. destruct (bits <? 32); [apply pack_rgb_wide; [lia|assumption]|].
+  destruct (bits =? 32); [destruct sg; apply pack_rgb_wide; (lia || assumption)|].
+  destruct sg; [apply pack_rgb_wide; [lia|assumption]|apply pack_rgb_None].
 Qed.
 
 Lemma flat_map_pairs (l : list (Z * Z)) :
@@ -869,39 +878,21 @@ Proof.
   split; [repeat (apply Forall_cons; [right; unfold zlen; cbn; lia|]); apply Forall_nil|]. cbn. discriminate.
 Qed.
 
-(* S-C19b: with the arithmetic of a uint8 colour table distinct colours get the same value *)
-Lemma annot_narrow_refuted :
-  exists labels ctab names b a,
-    write_annot (Some (8, false)) labels ctab names true = Ok b /\ read_annot false b = Ok a
-    /\ NoDup (map epack ctab) /\ ~ In 0 (map epack ctab) /\ Forall (label_ok (zlen ctab)) labels
-    /\ alabels a <> labels.
-Proof.
-  exists [0; 1; 2], [[10; 20; 30; 0]; [10; 40; 50; 0]; [200; 1; 2; 0]], [[97]; [98]; [99]]. eexists. eexists.
-  split; [vm_compute; reflexivity|]. split; [vm_compute; reflexivity|].
-  split; [repeat constructor; cbn; intuition discriminate|].
-  split; [cbn; intuition discriminate|].
-  split; [repeat (apply Forall_cons; [right; unfold zlen; cbn; lia|]); apply Forall_nil|]. cbn. discriminate.
-Qed.
-
-(* the dtype of the colour table: Python ints / int64 (None) or any integer type of >= 25 bits *)
-Definition wide_dt (dt : option (Z * bool)) : Prop :=
-  match dt with None => True | Some (bits, _) => 25 <= bits end.
 
 Definition ctab_ok (ctab : list (list Z)) : Prop :=
   Forall (fun row => (4 <= length row)%nat /\ rgb_ok row /\ Forall i32_ok row) ctab.
 
-Lemma annot_roundtrip_wide dt labels ctab names :
-  wide_dt dt ->
+(* for ANY integer dtype of the colour table *)
+Lemma annot_roundtrip_any dt labels ctab names :
   labels <> [] -> zlen labels * 2 < 2 ^ 31 -> 1 <= zlen ctab < 2 ^ 31 -> length names = length ctab ->
   ctab_ok ctab -> Forall name_ok names -> Forall (label_ok (zlen ctab)) labels ->
   NoDup (map epack ctab) -> ~ In 0 (map epack ctab) ->
   exists b, write_annot dt labels ctab names true = Ok b
     /\ read_annot false b = Ok (mkA labels (fill ctab) names).
 Proof.
-  intros Hdt Hne Hv Hn Hnl Hc Hnm Hl Hnd Hnz. apply annot_roundtrip; try assumption.
+  intros Hne Hv Hn Hnl Hc Hnm Hl Hnd Hnz. apply annot_roundtrip; try assumption.
   eapply Forall_impl; [|exact Hc]. intros row (H4 & Hrgb & Hi).
-  split; [assumption|]. split; [|split; assumption].
-  destruct dt as [[bits sg]|]; [now apply pack_rgb_wide|apply pack_rgb_None].
+  split; [assumption|]. split; [|split; assumption]. now apply pack_rgb_exact.
 Qed.
 
 (* fill_ctab=False with a consistent fifth column writes the same file *)
@@ -942,9 +933,9 @@ Lemma nonvacuous_instance :
   let ctab := [[25; 5; 25; 0]; [220; 20; 10; 255]; [0; 0; 1; 7]] in
   let names := [[117; 110; 107]; []; [98; 32; 99]] in
   let labels := [2; -1; 0; 1; 1] in
-  wide_dt (Some (32, true)) /\ ctab_ok ctab /\ Forall name_ok names /\ Forall (label_ok (zlen ctab)) labels
+  ctab_ok ctab /\ Forall name_ok names /\ Forall (label_ok (zlen ctab)) labels
   /\ NoDup (map epack ctab) /\ ~ In 0 (map epack ctab)
-  /\ (exists b, write_annot (Some (32, true)) labels ctab names true = Ok b
+  /\ (exists b, write_annot (Some (8, false)) labels ctab names true = Ok b
                 /\ read_annot false b = Ok (mkA labels (fill ctab) names))
   /\ wf_vinfo (mkV [2; 0; 20] [49; 32; 118] [97; 46; 109]
                    [[[50; 53]; [49]]; [[48; 46; 53]]; [[45; 49]; [48]]; []; [[48]]; [[49; 101; 45; 48; 53]]]).
@@ -953,7 +944,7 @@ Proof.
   assert (Ep : map epack [[25; 5; 25; 0]; [220; 20; 10; 255]; [0; 0; 1; 7]] = [1639705; 660700; 65536]) by (vm_compute; reflexivity).
   assert (Ez : zlen [[25; 5; 25; 0]; [220; 20; 10; 255]; [0; 0; 1; 7]] = 3) by reflexivity.
   rewrite Ep, Ez.
-  split; [unfold wide_dt; lia|]. split.
+  split.
   { unfold ctab_ok. repeat (apply Forall_cons; [split; [cbn [length]; lia|split;
       [unfold rgb_ok; cbn [nth]; lia|repeat (apply Forall_cons; [unfold i32_ok; lia|]); apply Forall_nil]]|]). apply Forall_nil. }
   split. { repeat (apply Forall_cons; [split; [reflexivity|unfold zlen; cbn [length]; lia]|]). apply Forall_nil. }
